@@ -30,7 +30,8 @@ LEVEL = "exploration"
 BUDGET = {"quick": 80, "thorough": 1500}
 RULE = (
     "(a) all 1,114,112 code points x 5 grammars (always complete); (b) (code point, "
-    "position, configuration) triples over 8 basic label positions plus every gap "
+    "position, configuration) triples over 24 basic label positions (among them the "
+    "very first and the very last character of the text) plus every gap "
     "of a 38-token label that has each statement form (the character as its own "
     "token and glued to the preceding token; for code points < 0x100, 14 larger ones "
     "and every 997th): quick = code points 0..0x2FF, every range "
@@ -107,6 +108,12 @@ POSITIONS = {
     "quoted-2nd-line": lambda c: HEAD + f'k = "first line\n  second {c} line"\nEND\n',
     "comment-3rd-line": lambda c: HEAD + f"/* one\n two\n three {c} */\nk = 1\nEND\n",
     "units-2nd-line": lambda c: HEAD + f"k = 1 <a\n{c}b>\nEND\n",
+    # the very first and the very last character of the text (nothing before / after)
+    "start-glued": lambda c: f"{c}a = 1\nEND\n",
+    "start-own-line": lambda c: f"{c}\na = 1\nEND\n",
+    "start-before-comment": lambda c: f"{c}/* c */\na = 1\nEND\n",
+    "end-of-text": lambda c: HEAD + f"k = 1\n{c}",
+    "end-of-text-glued": lambda c: HEAD + f"k = a{c}",
 }
 # every gap of a small label that exercises each statement form: the character as a
 # token of its own ("gapNN") and glued to the end of the preceding token ("glueNN")
@@ -134,7 +141,9 @@ QUOTED_SHAPES = {"quoted": "a{}b", "quoted-first": "{}ab", "quoted-last": "ab{}"
 BASIC_SET = {"name", "unquoted", "quoted", "quoted-first", "quoted-last", "quoted-only",
              "after-END-glued", "glued-after-comment", "glued-after-comment-value",
              "glued-before-comment", "after-dash-continuation", "comment", "units", "between", "after-END",
-             "lone-line-end", "quoted-2nd-line", "comment-3rd-line", "units-2nd-line"}
+             "lone-line-end", "quoted-2nd-line", "comment-3rd-line", "units-2nd-line",
+             "start-glued", "start-own-line", "start-before-comment", "end-of-text",
+             "end-of-text-glued"}
 GAP_EXTRA = {0x100, 0x17F, 0x3B1, 0x2028, 0x20AC, 0xD7FF, 0xD800, 0xDFFF, 0xE000, 0xFEFF,
              0xFFFF, 0x10000, 0x1F600, 0x10FFFF}
 BASIC_POSITIONS = [k for k in POSITIONS if not k.startswith(("gap", "glue"))]
@@ -154,7 +163,10 @@ def check_one(cfg, posname, o):
     """None or (signature, detail)."""
     c = chr(o)
     text = POSITIONS[posname](c)
-    idx = text.index(c, len(HEAD)) if c in text[len(HEAD):] else None
+    if posname.startswith("start-"):
+        idx = 0
+    else:
+        idx = text.index(c, len(HEAD)) if c in text[len(HEAD):] else None
     gname = cfg.split("-")[0]
     ok_char = allowed(gname, o)
     if posname == "after-END-glued":
